@@ -775,3 +775,16 @@ pub fn layout_inverse_opt(layout: Layout, numpad: bool) -> HashMap<String, (u16,
     }
     inv
 }
+
+/// CPU time (user + system) consumed so far by the calling thread, in milliseconds (10 ms resolution), read from
+/// /proc/thread-self/stat.  Used for the C01 time bound so that a loaded machine cannot produce a false alarm.
+/// `None` when procfs cannot be read (then only the wall clock is available).
+pub fn thread_cpu_ms() -> Option<u128> {
+    let s = std::fs::read_to_string("/proc/thread-self/stat").ok()?;
+    let rest = &s[s.rfind(')')? + 1..];
+    let f: Vec<&str> = rest.split_whitespace().collect();
+    // after the command name: state is field 3 => index 0; utime/stime are fields 14/15 => indices 11/12
+    let ut: u128 = f.get(11)?.parse().ok()?;
+    let stt: u128 = f.get(12)?.parse().ok()?;
+    Some((ut + stt) * 10)
+}
